@@ -36,3 +36,40 @@ pub enum Generic<T: ractor::BytesConvertable + Send + Sync + 'static> {
     #[rpc]
     Get(RpcReplyPort<T>),
 }
+
+/// Witness catalogue for C09.R10: the exported RPC macros are `macro_rules!` and therefore exist as code only where a
+/// *user* expands them; these functions expand every arm of /repo's current macros so their MIR can be analysed.
+pub mod rpc_macros {
+    use ractor::concurrency::Duration;
+    use ractor::{ActorRef, RactorErr, RpcReplyPort};
+
+    pub enum M {
+        A(RpcReplyPort<u32>),
+        B(u8, RpcReplyPort<u32>),
+        C(u8, u16, RpcReplyPort<u32>),
+        D(u32),
+    }
+    impl ractor::Message for M {}
+
+    pub async fn call_t_arm0(actor: &ActorRef<M>, timeout_ms: u64) -> Result<u32, RactorErr<M>> {
+        ractor::call_t!(actor, M::A, timeout_ms)
+    }
+    pub async fn call_t_arm1(actor: &ActorRef<M>, timeout_ms: u64, a: u8) -> Result<u32, RactorErr<M>> {
+        ractor::call_t!(actor, M::B, timeout_ms, a)
+    }
+    pub async fn call_t_arm2(actor: &ActorRef<M>, timeout_ms: u64, a: u8, b: u16) -> Result<u32, RactorErr<M>> {
+        ractor::call_t!(actor, M::C, timeout_ms, a, b)
+    }
+    pub async fn call_arm0(actor: &ActorRef<M>) -> Result<u32, RactorErr<M>> {
+        ractor::call!(actor, M::A)
+    }
+    pub async fn call_arm1(actor: &ActorRef<M>, a: u8) -> Result<u32, RactorErr<M>> {
+        ractor::call!(actor, M::B, a)
+    }
+    pub async fn forward_timed(actor: &ActorRef<M>, fwd: ActorRef<M>, timeout: Duration) -> Result<(), RactorErr<M>> {
+        ractor::forward!(actor, M::A, fwd, M::D, timeout)
+    }
+    pub async fn forward_untimed(actor: &ActorRef<M>, fwd: ActorRef<M>) -> Result<(), RactorErr<M>> {
+        ractor::forward!(actor, M::A, fwd, M::D)
+    }
+}
